@@ -5,6 +5,7 @@ import (
 	"fmt"
 	"math"
 	"math/big"
+	"regexp"
 	"runtime/debug"
 	"strings"
 	"time"
@@ -390,7 +391,7 @@ func c14Hand(c *report.Ctx, s *evx.Sim, part, desc string, ev abcitypes.Event, t
 	if out.Kind == "panic" || out.Kind == "fatal" {
 		w := toWire(ev)
 		c.Violation("C14/keyper-crash/"+out.Where,
-			fmt.Sprintf("%s\nevent %v decodes without error; handed to a member keyper in DKG phase %s (block %d) the keyper ends with: %s\n%s", desc, ev, p, s.PhaseHeight(p), out.Msg, out.Stack),
+			fmt.Sprintf("%s\nevent %v handed to a member keyper in DKG phase %s (block %d) the keyper ends with: %s\n%s", desc, ev, p, s.PhaseHeight(p), out.Msg, out.Stack),
 			c14Replay{Part: part, Desc: desc, Event: &w, Phase: string(p), Last: last, Restart: restart})
 	}
 }
@@ -436,6 +437,13 @@ func c14PartCD(c *report.Ctx, s *evx.Sim, unit *int) {
 			}
 			if err != nil {
 				c.Stats.Class("(c) " + typ + " mutant rejected with an error")
+				// (d'): the undecodable mutant goes to the keyper too (it has to report
+				// the error and go on); once per kind of decoding error and type
+				k := "rejected|" + typ + "|" + numRe.ReplaceAllString(firstWords(err.Error(), 8), "N")
+				if !seen[k] {
+					seen[k] = true
+					c14Hand(c, s, "d", full+" (undecodable: "+err.Error()+")", m, typ+" (undecodable)", matchingPhases(typ, false)[0], false, false)
+				}
 				return
 			}
 			nDecodes++
@@ -794,4 +802,14 @@ func c14() *report.Check {
 			return "unknown replay part " + rp.Part
 		},
 	}
+}
+
+var numRe = regexp.MustCompile(`[0-9a-fA-Fx]{3,}|[0-9]+`)
+
+func firstWords(s string, n int) string {
+	f := strings.Fields(s)
+	if len(f) > n {
+		f = f[:n]
+	}
+	return strings.Join(f, " ")
 }
